@@ -310,6 +310,10 @@ func makeCaseTrap(c *core.Ctx, nRefs, L, nQueries int, trap bool) (*gen.RefCase,
 		nTie = 0
 	}
 	rc := gen.NewRefCase(c.Rng, nRefs, L, nQueries, nTie)
+	for len(rc.Refs) > 8192 && (len(rc.Refs)%2 == 0 || len(rc.Refs)%3 == 0) {
+		// very large databases: a size that no small number of workers divides evenly
+		rc.Refs, rc.Fam = rc.Refs[:len(rc.Refs)-1], rc.Fam[:len(rc.Fam)-1]
+	}
 	if nRefs <= 40 && c.Rng.Intn(6) == 0 {
 		// low-complexity amplicons: every sequence starts with the same long microsatellite or
 		// homopolymer, so that one 4-mer occurs several hundred times in queries and references
